@@ -62,15 +62,18 @@ Qed.
 (* ---------------------------------------------------------------- bounds of the denotation *)
 Section DB.
 Variable input : list N.
-Variable ci : bool.
+Variable ci multi : bool.
 Let n := length input.
 
-Lemma D_le : (forall b p q, p <= n -> In q (Db input ci b p) -> q <= n) /\ (forall a p q, p <= n -> In q (Da input ci a p) -> q <= n).
+Lemma D_le : (forall b p q, p <= n -> In q (Db input ci multi b p) -> q <= n) /\ (forall a p q, p <= n -> In q (Da input ci multi a p) -> q <= n).
 Proof.
   apply branch_alt_ind.
   - intros cs p q Hp H. cbn [Db] in H. apply lit_le in H. tauto.
   - intros cs cap a IHa b IHb p q Hp H. cbn [Db] in H. apply in_flat_map in H as (m & Hm & H).
     apply in_flat_map in Hm as (m1 & Hm1 & Hm). apply lit_le in Hm1. eapply IHb; [|exact H]. eapply IHa; [|exact Hm]. tauto.
+  - intros cs c k rel b IHb p q Hp H. cbn [Db] in H. apply in_flat_map in H as (m & Hm & H).
+    apply in_flat_map in Hm as (m1 & Hm1 & Hm). apply lit_le in Hm1. eapply IHb; [|exact H].
+    eapply (Dq_le input ci multi); [|exact Hm]. tauto.
   - intros b IHb p q Hp H. exact (IHb p q Hp H).
   - intros b IHb a IHa p q Hp H. cbn [Da] in H. apply in_app_iff in H as [H|H]; eauto.
 Qed.
@@ -82,6 +85,7 @@ Variable xpath : bool.
 Variable input : list N.
 Variable fl : sflags.
 Let ci := s_i fl.
+Let multi := s_m fl.
 Let n := length input.
 Let E (r : re) (p : nat) : list nat := ends fl input r p.
 Let SE (rs : list re) (A : list nat) : list nat := seq_ends input fl rs A.
@@ -122,10 +126,23 @@ Proof.
     + apply in_rev in Hz. exact Hz.
 Qed.
 
+(* a quantified character *)
+Lemma p_quant_sym k t : p_quant (qsym k :: t) = PV (Some (qmin k, qmaxo k)) t.
+Proof. destruct k; reflexivity. Qed.
+Lemma not_qmark_match {A} (l : list N) (X : list N -> A) (Y : A) : head_fine l ->
+  match l with 63%N :: r3 => X r3 | _ => Y end = Y.
+Proof.
+  destruct l as [|c t]; [reflexivity|]. cbn. intros H. destruct c as [|p]; [reflexivity|].
+  do 6 (try (destruct p as [p|p|]); try reflexivity). exfalso.
+  destruct H as [H|[H|[H|H]]]; discriminate.
+Qed.
+Lemma Dq_flags c k rel m : E (RQuant (RChar c) (qmin k) (qmaxo k) (negb rel)) m = Dq input ci multi c k rel m.
+Proof. reflexivity. Qed.
+
 Definition Q_b (b : branch) : Prop :=
   ok_b xpath b = true -> forall post st acc fuel, term_b post -> 6 * length (show_b b) + 6 <= fuel ->
     exists rs st', p_branch fuel xpath st (show_b b ++ post) acc = PV (RSeq (rev acc ++ rs), st') post
-      /\ (forall m q, m <= n -> (In q (SE rs [m]) <-> In q (Db input ci b m))).
+      /\ (forall m q, m <= n -> (In q (SE rs [m]) <-> In q (Db input ci multi b m))).
 
 Definition Q_a (a : alt) : Prop :=
   ok_a xpath a = true -> forall post st acc f1 f2, term_a post ->
@@ -133,7 +150,7 @@ Definition Q_a (a : alt) : Prop :=
     exists b st1 rest1 bs st', p_branch f1 xpath st (show_a a ++ post) [] = PV (b, st1) rest1
       /\ p_more f2 xpath st1 rest1 (b :: acc) = PV (bs, st') post /\ bs <> []
       /\ (forall p q, p <= n -> ((exists x, In x bs /\ In q (E x p))
-                                 <-> (exists x, In x acc /\ In q (E x p)) \/ In q (Da input ci a p))).
+                                 <-> (exists x, In x acc /\ In q (E x p)) \/ In q (Da input ci multi a p))).
 
 Theorem spec_parses : (forall b, Q_b b) /\ (forall a, Q_a a).
 Proof.
@@ -162,7 +179,7 @@ Proof.
     rewrite p_piece_S.
     (* the group *)
     assert (Hatom : exists g st2, p_atom (S f3) xpath st (40%N :: opt ++ inner ++ 41%N :: rest ++ post) = PV (g, st2) (rest ++ post)
-              /\ (forall p q, p <= n -> (In q (E g p) <-> In q (Da input ci a p)))).
+              /\ (forall p q, p <= n -> (In q (E g p) <-> In q (Da input ci multi a p)))).
     { destruct cap; subst opt; cbn [app].
       - rewrite p_atom_cap.
         2:{ pose proof (head_fine_a xpath a (41%N :: rest ++ post) Oka ltac:(right; eexists; reflexivity)) as Hh. fold inner in Hh.
@@ -197,21 +214,63 @@ Proof.
         apply SE_run in Hk1; auto. apply SE_one in Hk.
         assert (k1 <= n) by (apply lit_le in Hk1; tauto).
         apply Semg in Hk; auto.
-        assert (k <= n) by (eapply (proj2 (D_le input ci)); eauto).
+        assert (k <= n) by (eapply (proj2 (D_le input ci multi)); eauto).
         apply Semb in Hq; auto.
         apply in_flat_map. exists k. split; [|exact Hq]. apply in_flat_map. exists k1. auto.
       * intros H. apply in_flat_map in H as (k & Hk & Hq). apply in_flat_map in Hk as (k1 & Hk1 & Hk).
         assert (k1 <= n) by (apply lit_le in Hk1; tauto).
-        assert (k <= n) by (eapply (proj2 (D_le input ci)); eauto).
+        assert (k <= n) by (eapply (proj2 (D_le input ci multi)); eauto).
         exists k. split; [|apply Semb; auto].
         apply SE_in. exists k1. split; [apply SE_run; auto|]. apply SE_one. apply Semg; auto.
+  - (* BQ *) intros cs c k rel b' IHb Hok post st acc fuel Ht Hf.
+    cbn [ok_b] in Hok. apply andb_true_iff in Hok as [Hok Okb]. apply andb_true_iff in Hok as [Hok Hrx].
+    apply andb_true_iff in Hok as [Ocs Oc]. cbn [show_b] in Hf |- *.
+    set (ropt := if rel then [63%N] else []) in *. set (rest := show_b b') in *.
+    assert (Lsh : length (cs ++ c :: qsym k :: ropt ++ rest) = length cs + 2 + length ropt + length rest).
+    { rewrite !app_length. cbn [length]. rewrite !app_length. lia. }
+    rewrite Lsh in Hf.
+    replace ((cs ++ c :: qsym k :: ropt ++ rest) ++ post) with (cs ++ c :: qsym k :: ropt ++ rest ++ post)
+      by (rewrite <- app_assoc; cbn [app]; rewrite <- !app_assoc; reflexivity).
+    rewrite (p_branch_run xpath cs fuel st _ acc Ocs) by (cbn; auto; lia).
+    destruct (fuel - length cs) as [|[|[|f3]]] eqn:Ef; try lia.
+    destruct (ordinary_neq c Oc) as (_ & _ & _ & _ & _ & _ & _ & _ & _ & _ & _ & _ & A13 & A14).
+    rewrite p_branch_S, A13, A14. cbn [orb].
+    rewrite p_piece_S, (p_atom_S xpath st f3 c _ Oc). cbn [pbind]. rewrite p_quant_sym. cbn [pbind].
+    assert (Hh : head_fine (rest ++ post)) by (apply (head_fine_b xpath); auto).
+    assert (Epiece : (match ropt ++ rest ++ post with
+                      | 63%N :: rest3 => if xpath then PV (RQuant (RChar c) (qmin k) (qmaxo k) false, st) rest3 else PI
+                      | _ => PV (RQuant (RChar c) (qmin k) (qmaxo k) true, st) (ropt ++ rest ++ post)
+                      end) = PV (RQuant (RChar c) (qmin k) (qmaxo k) (negb rel), st) (rest ++ post)).
+    { subst ropt. destruct rel; cbn [app negb].
+      - cbn [negb orb] in Hrx. rewrite Hrx. reflexivity.
+      - apply (not_qmark_match (rest ++ post)). exact Hh. }
+    rewrite Epiece. cbn [pbind].
+    destruct (IHb Okb post st (RQuant (RChar c) (qmin k) (qmaxo k) (negb rel) :: rev (map RChar cs) ++ acc) (S (S f3)) Ht
+                ltac:(fold rest; lia)) as (rs & st' & Eb & Semb).
+    fold rest in Eb. rewrite Eb.
+    exists (map RChar cs ++ RQuant (RChar c) (qmin k) (qmaxo k) (negb rel) :: rs), st'. split.
+    + f_equal. f_equal. f_equal. cbn [rev]. rewrite rev_app_distr, rev_involutive, <- !app_assoc. cbn [app]. reflexivity.
+    + intros m q Hm. cbn [Db]. rewrite SE_app.
+      change (RQuant (RChar c) (qmin k) (qmaxo k) (negb rel) :: rs) with ([RQuant (RChar c) (qmin k) (qmaxo k) (negb rel)] ++ rs).
+      rewrite SE_app. rewrite SE_in. split.
+      * intros (k0 & Hk & Hq). apply SE_in in Hk. destruct Hk as (k1 & Hk1 & Hk).
+        apply SE_run in Hk1; auto. apply SE_one in Hk. rewrite Dq_flags in Hk.
+        assert (k1 <= n) by (apply lit_le in Hk1; tauto).
+        assert (k0 <= n) by (eapply (Dq_le input ci multi); eauto).
+        apply Semb in Hq; auto.
+        apply in_flat_map. exists k0. split; [|exact Hq]. apply in_flat_map. exists k1. auto.
+      * intros H. apply in_flat_map in H as (k0 & Hk & Hq). apply in_flat_map in Hk as (k1 & Hk1 & Hk).
+        assert (k1 <= n) by (apply lit_le in Hk1; tauto).
+        assert (k0 <= n) by (eapply (Dq_le input ci multi); eauto).
+        exists k0. split; [|apply Semb; auto].
+        apply SE_in. exists k1. split; [apply SE_run; auto|]. apply SE_one. rewrite Dq_flags. exact Hk.
   - (* AOne *) intros b IHb Hok post st acc f1 f2 Ht Hf1 Hf2. cbn [show_a ok_a] in *.
     assert (Htb : term_b post) by (destruct Ht as [->|(t & ->)]; [left; auto|right; eauto]).
     destruct (IHb Hok post st [] f1 Htb ltac:(lia)) as (rs & st1 & Eb & Semb). cbn [rev app] in Eb.
     destruct f2 as [|f2]; [lia|].
     exists (RSeq rs), st1, post, (RSeq rs :: acc), st1. split; [exact Eb|]. split; [apply p_more_S_stop; exact Ht|].
     split; [discriminate|]. intros p q Hp.
-    assert (So : In q (E (RSeq rs) p) <-> In q (Db input ci b p)) by (apply (Semb p q Hp)).
+    assert (So : In q (E (RSeq rs) p) <-> In q (Db input ci multi b p)) by (apply (Semb p q Hp)).
     cbn [Da]. split.
     + intros (x & [<-|Hx] & Hq); [right; apply So; exact Hq|left; eauto].
     + intros [(x & Hx & Hq)|Hq]; [exists x; split; [right; exact Hx|exact Hq]|exists (RSeq rs); split; [left; reflexivity|apply So; exact Hq]].
@@ -226,7 +285,7 @@ Proof.
     exists (RSeq rs), st1, (124%N :: show_a a' ++ post), bs, st'. split; [exact Eb|]. split.
     { rewrite p_more_S_bar, E1. cbn [pbind]. exact E2. }
     split; [exact Nbs|]. intros p q Hp.
-    assert (So : In q (E (RSeq rs) p) <-> In q (Db input ci b p)) by (apply (Semb p q Hp)).
+    assert (So : In q (E (RSeq rs) p) <-> In q (Db input ci multi b p)) by (apply (Semb p q Hp)).
     rewrite (Sem p q Hp). cbn [Da]. rewrite in_app_iff. split.
     + intros [(x & [<-|Hx] & Hq)|Hq]; [right; left; apply So; exact Hq|left; eauto|right; right; exact Hq].
     + intros [(x & Hx & Hq)|[Hq|Hq]]; [left; exists x; split; [right; exact Hx|exact Hq]|left; exists (RSeq rs); split; [left; reflexivity|apply So; exact Hq]|right; exact Hq].
@@ -234,7 +293,7 @@ Qed.
 
 Theorem spec_parse_grammar a : ok_a xpath a = true ->
   exists r, spec_parse xpath (show_a a) = Valid r
-    /\ (forall p q, p <= n -> (In q (E r p) <-> In q (Da input ci a p))).
+    /\ (forall p q, p <= n -> (In q (E r p) <-> In q (Da input ci multi a p))).
 Proof.
   intros Hok. destruct spec_parses as [_ QA].
   destruct (QA a Hok [] {| opened := 0; closed := [] |} [] (8 * length (show_a a) + 15) (8 * length (show_a a) + 15)
@@ -252,7 +311,7 @@ Lemma nonempty_in (l : list nat) : l <> [] <-> exists q, In q l.
 Proof. destruct l as [|x t]; split; [intros H; contradiction|intros (q & [])|intros _; exists x; left; reflexivity|discriminate]. Qed.
 
 Theorem grammar_end_to_end xpath a fls input :
-  ok_a xpath a = true -> existsb (N.eqb 59) fls = false ->
+  ok_a xpath a = true -> existsb (N.eqb 59) fls = false -> (N.of_nat (length input) < umax)%N ->
   match spec_flags xpath fls with
   | Valid sf =>
       s_q sf = false -> s_x sf = false ->
@@ -262,13 +321,13 @@ Theorem grammar_end_to_end xpath a fls input :
   | Unspecified => True
   end.
 Proof.
-  intros Hok Hsep. pose proof (parse_flags_spec xpath fls Hsep) as PF. unfold regex_new.
+  intros Hok Hsep Hfit. pose proof (parse_flags_spec xpath fls Hsep) as PF. unfold regex_new.
   destruct (parse_flags xpath fls) as [fl|e| |] eqn:Efl; destruct (spec_flags xpath fls) as [sf| |] eqn:Esf;
     try contradiction; try exact I; try (destruct e; try contradiction; reflexivity).
   destruct PF as [(A1 & A2 & A3 & A4 & A5) Hx]. intros Hsq Hsx. cbn [rbind].
   set (pat := show_a a).
   (* the parser's result does not depend on the input; get it once *)
-  destruct (parse_expr_grammar pat xpath (f_case fl) (f_single fl) [] (f_multi fl) 0 a Hok eq_refl)
+  destruct (parse_expr_grammar pat xpath (f_case fl) (f_single fl) [] (f_multi fl) 0 (eq_refl : (N.of_nat (length (@nil N)) < umax)%N) a Hok eq_refl)
     as (top & st' & Eparse & Hi & Hb & _ & _).
   assert (Ecomp : compile true fl pat
                   = Ok (mk_program_unopt pat top (parens st') (f_case fl) (f_multi fl) false false)).
@@ -278,28 +337,28 @@ Proof.
   set (prog := mk_program_unopt pat top (parens st') (f_case fl) (f_multi fl) false false).
   assert (Hun : p_hasbol prog = false /\ p_minlen prog = 0%N /\ p_prefix prog = None /\ p_icc prog = None /\ p_pre prog = [])
     by (repeat split; reflexivity).
-  assert (Facts : forall inp, simple inp (f_case fl) (f_multi fl) false (parens st') top
-                   /\ (forall p q, p <= length inp -> (In q (Rop inp (f_case fl) (f_multi fl) top p) <-> In q (Da inp (f_case fl) a p)))).
-  { intros inp. destruct (parse_expr_grammar pat xpath (f_case fl) (f_single fl) inp (f_multi fl) (parens st') a Hok eq_refl)
+  assert (Facts : forall inp, (N.of_nat (length inp) < umax)%N -> simple inp (f_case fl) (f_multi fl) false (parens st') top
+                   /\ (forall p q, p <= length inp -> (In q (Rop inp (f_case fl) (f_multi fl) top p) <-> In q (Da inp (f_case fl) (f_multi fl) a p)))).
+  { intros inp Hfi. destruct (parse_expr_grammar pat xpath (f_case fl) (f_single fl) inp (f_multi fl) (parens st') Hfi a Hok eq_refl)
       as (top' & st'' & Eparse' & _ & _ & G & S0 & _).
     rewrite Eparse in Eparse'. injection Eparse' as <- <-. split; [exact G|exact S0]. }
   (* the nullable probe *)
-  pose proof (fragment_no_panic_no_out prog [] (proj1 (Facts [])) Hun 0 st0 (le_n 0) eq_refl) as NP0.
+  pose proof (fragment_no_panic_no_out prog [] (proj1 (Facts [] eq_refl)) Hun 0 st0 (le_n 0) eq_refl) as NP0.
   destruct (matches prog [] 0 st0) as [s0|s0| |k0]; try contradiction; cbn [mres_bool rbind].
   all: destruct (spec_parse_grammar xpath input sf a Hok) as (r & Espec & Sr).
   all: eexists; exists r; split; [reflexivity|]; split; [exact Espec|]; unfold is_match; cbn [r_prog].
-  all: pose proof (fragment_no_panic_no_out prog input (proj1 (Facts input)) Hun 0 st0 (Nat.le_0_l _) eq_refl) as NP.
-  all: pose proof (fragment_is_match_iff prog input (proj1 (Facts input)) Hun 0 st0 (Nat.le_0_l _) eq_refl) as MI.
+  all: pose proof (fragment_no_panic_no_out prog input (proj1 (Facts input Hfit)) Hun 0 st0 (Nat.le_0_l _) eq_refl) as NP.
+  all: pose proof (fragment_is_match_iff prog input (proj1 (Facts input Hfit)) Hun 0 st0 (Nat.le_0_l _) eq_refl) as MI.
   all: assert (Key : (exists m, 0 <= m <= length input /\ Rop input (p_case prog) (p_multi prog) (p_op prog) m <> [])
                       <-> spec_is_match sf input r = true).
   1,3: (unfold spec_is_match; rewrite existsb_exists; split;
         [intros (m & Hm & Hne); exists m; split; [apply in_seq; lia|];
          apply nonempty_in in Hne; destruct Hne as (q & Hq);
-         apply (proj2 (Facts input) m q ltac:(lia)) in Hq; rewrite A1 in Hq; apply (Sr m q ltac:(lia)) in Hq;
+         apply (proj2 (Facts input Hfit) m q ltac:(lia)) in Hq; rewrite A1, A2 in Hq; apply (Sr m q ltac:(lia)) in Hq;
          destruct (ends sf input r m); [destruct Hq|reflexivity]
         |intros (m & Hin & Hb'); apply in_seq in Hin; exists m; split; [lia|];
          apply nonempty_in; destruct (ends sf input r m) as [|q t] eqn:Ee; [discriminate|];
-         exists q; apply (proj2 (Facts input) m q ltac:(lia)); rewrite A1; apply (Sr m q ltac:(lia)); rewrite Ee; left; reflexivity]).
+         exists q; apply (proj2 (Facts input Hfit) m q ltac:(lia)); rewrite A1, A2; apply (Sr m q ltac:(lia)); rewrite Ee; left; reflexivity]).
   all: destruct (matches prog input 0 st0) as [s1|s1| |k1]; try contradiction; cbn [mres_bool rbind]; f_equal; symmetry.
   1,3: apply Key; apply MI; eauto.
   all: apply not_true_is_false; intros Hs; apply Key in Hs; apply MI in Hs; destruct Hs as (s'' & Hs''); discriminate.
@@ -319,6 +378,20 @@ Example ex_tree_runs :
   end = Ok true.
 Proof. vm_compute. reflexivity. Qed.
 
+(* non-vacuity with quantified characters: a+(?:b|c*?d)x? under XPath *)
+Definition ex_tree_q : alt :=
+  AOne (BQ [] 97%N QPlus false
+          (BGrp [] false (ACons (BEnd [98%N]) (AOne (BQ [] 99%N QStar true (BEnd [100%N]))))
+                (BQ [] 120%N QOpt false (BEnd [])))).
+Example ex_tree_q_text : show_a ex_tree_q = [97; 43; 40; 63; 58; 98; 124; 99; 42; 63; 100; 41; 120; 63]%N /\ ok_a true ex_tree_q = true.
+Proof. split; reflexivity. Qed.
+Example ex_tree_q_runs :
+  match regex_new true true (show_a ex_tree_q) []%N with
+  | Ok re => is_match re [122; 97; 97; 99; 99; 100]%N
+  | _ => Err ESyntax
+  end = Ok true.
+Proof. vm_compute. reflexivity. Qed.
+
 (* the grammar half on this grammar: both parsers accept every printed tree *)
 Theorem grammar_accepted fl a :
   ok_a (f_xpath fl) a = true -> f_literal fl = false -> f_ws fl = false ->
@@ -327,7 +400,7 @@ Proof.
   intros Hok Hq Hx. split.
   - destruct (spec_parse_grammar (f_xpath fl) [] {| s_i := false; s_m := false; s_s := false; s_x := false; s_q := false |} a Hok)
       as (r & E & _). eauto.
-  - destruct (parse_expr_grammar (show_a a) (f_xpath fl) (f_case fl) (f_single fl) [] (f_multi fl) 0 a Hok eq_refl)
+  - destruct (parse_expr_grammar (show_a a) (f_xpath fl) (f_case fl) (f_single fl) [] (f_multi fl) 0 (eq_refl : (N.of_nat (length (@nil N)) < umax)%N) a Hok eq_refl)
       as (top & st' & Eparse & Hi & Hb & _ & _).
     unfold compile. rewrite Hq, Hx, Eparse. cbn [rbind]. rewrite Hi, Nat.eqb_refl. cbn [negb]. eauto.
 Qed.
@@ -336,7 +409,7 @@ Qed.
    empty string, the token iterator finishes within len+3 steps with at most len+1 tokens - no
    hypothesis about any stage (parser, matcher interface, scan loop) is left *)
 Theorem grammar_tokenize_end_to_end xpath a fls input :
-  ok_a xpath a = true -> existsb (N.eqb 59) fls = false ->
+  ok_a xpath a = true -> existsb (N.eqb 59) fls = false -> (N.of_nat (length input) < umax)%N ->
   match spec_flags xpath fls with
   | Valid sf =>
       s_q sf = false -> s_x sf = false ->
@@ -347,12 +420,12 @@ Theorem grammar_tokenize_end_to_end xpath a fls input :
   | _ => True
   end.
 Proof.
-  intros Hok Hsep. pose proof (parse_flags_spec xpath fls Hsep) as PF. unfold regex_new.
+  intros Hok Hsep Hfit. pose proof (parse_flags_spec xpath fls Hsep) as PF. unfold regex_new.
   destruct (parse_flags xpath fls) as [fl|e| |] eqn:Efl; destruct (spec_flags xpath fls) as [sf| |] eqn:Esf;
     try contradiction; try exact I; try (destruct e; contradiction).
   destruct PF as [(A1 & A2 & A3 & A4 & A5) Hx]. intros Hsq Hsx. cbn [rbind].
   set (pat := show_a a).
-  destruct (parse_expr_grammar pat xpath (f_case fl) (f_single fl) [] (f_multi fl) 0 a Hok eq_refl)
+  destruct (parse_expr_grammar pat xpath (f_case fl) (f_single fl) [] (f_multi fl) 0 (eq_refl : (N.of_nat (length (@nil N)) < umax)%N) a Hok eq_refl)
     as (top & st' & Eparse & Hi & Hb & _ & _ & Hfr).
   assert (Ecomp : compile true fl pat
                   = Ok (mk_program_unopt pat top (parens st') (f_case fl) (f_multi fl) false false)).
@@ -362,14 +435,14 @@ Proof.
   set (prog := mk_program_unopt pat top (parens st') (f_case fl) (f_multi fl) false false).
   assert (Hun : p_hasbol prog = false /\ p_minlen prog = 0%N /\ p_prefix prog = None /\ p_icc prog = None /\ p_pre prog = [])
     by (repeat split; reflexivity).
-  assert (Facts : forall inp, simple inp (f_case fl) (f_multi fl) false (parens st') top).
-  { intros inp. destruct (parse_expr_grammar pat xpath (f_case fl) (f_single fl) inp (f_multi fl) (parens st') a Hok eq_refl)
+  assert (Facts : forall inp, (N.of_nat (length inp) < umax)%N -> simple inp (f_case fl) (f_multi fl) false (parens st') top).
+  { intros inp Hfi. destruct (parse_expr_grammar pat xpath (f_case fl) (f_single fl) inp (f_multi fl) (parens st') Hfi a Hok eq_refl)
       as (top' & st'' & Eparse' & _ & _ & G & _).
     rewrite Eparse in Eparse'. injection Eparse' as <- <-. exact G. }
-  pose proof (fragment_no_panic_no_out prog [] (Facts []) Hun 0 st0 (le_n 0) eq_refl) as NP0.
+  pose proof (fragment_no_panic_no_out prog [] (Facts [] eq_refl) Hun 0 st0 (le_n 0) eq_refl) as NP0.
   destruct (matches prog [] 0 st0) as [s0|s0| |k0] eqn:E0; try contradiction; cbn [mres_bool rbind];
     (eexists; split; [reflexivity|]); cbn [r_nullable r_prog]; intros Hn; [discriminate|].
-  apply (fragment_token_bound prog input (Facts input) Hfr Hun (Facts [])).
+  apply (fragment_token_bound prog input (Facts input Hfit) Hfr Hun (Facts [] eq_refl)).
   - intros s' Es. rewrite E0 in Es. discriminate.
   - reflexivity.
 Qed.
